@@ -22,7 +22,7 @@ Universe == <<
     HI(0, <<0>>), HI(0, <<1>>), HI(1, <<1>>), HI(0, <<7>>),
     HI(0, <<1>> \o Zeros(27)), HI(0, Nines(28)), HI(0, <<1>> \o Zeros(28)), HI(0, <<1>> \o Zeros(40)), HI(1, Nines(30)),
     HD(0, <<0>>, 0), HD(0, <<7>>, 0), HD(1, <<2, 5>>, -1), HD(0, Nines(28), 0), HD(0, <<1>> \o Zeros(28), 0), HD(0, Nines(40), -5),
-    HD(0, <<1>>, 100), HD(0, <<1>>, -100), HD(0, <<9, 9, 9>>, 999997), HD(0, <<1>>, 40), HD(1, Nines(28), 30),
+    HD(0, <<1>>, 100), HD(0, <<1>>, -100), HD(0, <<9, 9, 9>>, 99997), HD(0, <<1>>, 40), HD(1, Nines(28), 30),
     [t |-> "bool", b |-> TRUE],
     HF(0, Tenth, -55, <<48, 46, 49>>), HF(0, <<2, 5>>, -1, <<50, 46, 53>>),
     [t |-> "str", s |-> <<97, 98>>], [t |-> "list", addr |-> 1], [t |-> "none"] >>
